@@ -203,6 +203,51 @@ AppendContentOK(t, t2, L2) ==
          t.s = 0 \/ (Len(b) >= Len(a) /\ \A i \in 1..Len(a) : b[i] = a[i])
 AppendOK(t, t2, L2, w, lk) == AppendContentOK(t, t2, L2) /\ TrickleShapeOK(t2, w, lk)
 
+(* ------------------------------------------------------------------ CID layer and DAG service (C08)
+   A file DAG lives in a DAG service: a map from CIDs to blocks.  A parent refers to a child by the
+   child's CID, and the CID of a node is fixed by the node's bytes AND the CID builder it is hashed
+   with.  C08 quantifies over the whole builder space and over both ways an append is reached:
+
+     CidBuilders : "v0" (CIDv0 = sha2-256, raw leaves are CIDv1), CIDv1 with "sha2-256" | "blake2b-256" |
+                   "sha3-256", and "identity" (the node's bytes ARE the digest; a DAG service only accepts
+                   identity digests of at most IdLimit bytes);
+     Entries     : "trickle"  = trickle.Append on a plain DAG service (which REFUSES a node whose identity
+                                digest is over the limit),
+                   "modifier" = the DagModifier's append, documented to switch a node "to a cryptographic
+                                hash function when the encoded data would exceed this limit" -- i.e. the DAG
+                                service the append runs on may RE-HASH a node while storing it.
+
+   Whatever the builder and the entry, the appended file is a DAG *in the service*: every link of every node,
+   followed by CID through the service, resolves (NO DANGLING LINK: a link must carry the CID its child was
+   stored under, also when the service re-hashed the child), and every CID is one the configuration allows.
+   The harness projects this layer into the same tree: a node that a link points to but the service does not
+   hold is projected as k = "missing"; cv = CID version, hk = multihash function, el = block length in bytes
+   (only reported under the identity builder).                                                            *)
+IdLimit == 128                 \* verifcid.DefaultMaxIdentityDigestSize
+FallbackHash == "sha2-256"     \* util.DefaultIpfsHash
+CidBuilders == {"v0", "sha2-256", "blake2b-256", "sha3-256", "identity"}
+Entries == {"trickle", "modifier"}
+DefCv(cb, k) == IF cb = "v0" /\ k # "raw" THEN 0 ELSE 1
+DefHk(cb, k) == IF cb = "v0" THEN "sha2-256" ELSE cb
+\* c = [k, cv, hk, el, ch] (the CID-layer view of a projected node, see TraceUnixFSFile!NormC)
+RECURSIVE Resolves(_)
+Resolves(c) == c.k # "missing" /\ \A i \in 1..Len(c.ch) : Resolves(c.ch[i])
+CidNodeOK(c, cb) ==
+    IF cb = "identity"
+    THEN /\ c.cv = 1
+         /\ c.hk \in {"identity", FallbackHash}
+         /\ (c.hk = "identity" => (c.el >= 0 /\ c.el <= IdLimit))     \* a CID the DAG service accepts
+    ELSE c.cv = DefCv(cb, c.k) /\ c.hk = DefHk(cb, c.k)
+RECURSIVE AllCidOK(_, _)
+AllCidOK(c, cb) == CidNodeOK(c, cb) /\ \A i \in 1..Len(c.ch) : AllCidOK(c.ch[i], cb)
+\* the DAG the append is building cannot be stored as it is: some node hashed with identity is over the limit
+RECURSIVE HasOversizedIdentity(_)
+HasOversizedIdentity(c) == (c.hk = "identity" /\ c.el > IdLimit) \/ \E i \in 1..Len(c.ch) : HasOversizedIdentity(c.ch[i])
+\* An append may fail (return an error, leaving the base file as it was) only when the entry has no way to
+\* store the DAG: plain DAG service + identity builder + a node over the limit.  The modifier entry never may.
+MayRefuse(cb, via, witness) == cb = "identity" /\ via = "trickle" /\ Resolves(witness) /\ HasOversizedIdentity(witness)
+StoreOK(c, cb) == Resolves(c) /\ AllCidOK(c, cb)
+
 (* ------------------------------------------------------------------ trickle.Append AS BUILT
    (open finding C08-append-too-deep).  A transcription of Append / appendFillLastChild / appendRec
    of trickledag.go, used ONLY by the deviation action of TraceUnixFSFile to recognise exactly the
